@@ -18,8 +18,16 @@ func printerFprint(w io.Writer, fset *token.FileSet, n any) error { return print
 func (x *Exec) block(st *State, stmts []ast.Stmt) *Flow {
 	fl := newFlow(st)
 	for _, s := range stmts {
+		// forward goto: states that jumped to this label join the normal flow here
+		if ls, ok := s.(*ast.LabeledStmt); ok {
+			key := "goto:" + ls.Label.Name
+			if js := fl.brk[key]; len(js) > 0 {
+				fl.normal = x.merge(append([]*State{fl.normal}, js...))
+				delete(fl.brk, key)
+			}
+		}
 		if fl.normal == nil {
-			break
+			continue
 		}
 		r := x.stmt(fl.normal, s)
 		fl.normal = r.normal
@@ -115,6 +123,9 @@ func (x *Exec) stmt(st *State, s ast.Stmt) *Flow {
 			fl.brk[lbl] = append(fl.brk[lbl], st)
 		case token.CONTINUE:
 			fl.cont[lbl] = append(fl.cont[lbl], st)
+		case token.GOTO:
+			// only forward jumps to a label later in an enclosing block are supported (joined in block())
+			fl.brk["goto:"+lbl] = append(fl.brk["goto:"+lbl], st)
 		default:
 			x.unsupported(s, "branch %s", s.Tok)
 		}
@@ -151,6 +162,9 @@ func (x *Exec) isPanic(call *ast.CallExpr) bool {
 }
 
 func (x *Exec) havocClosureAssigned(st *State) {
+	if !x.litEscapes {
+		return
+	}
 	var objs []types.Object
 	for o := range x.closureAssigned {
 		if _, ok := st.vars[o]; ok {
